@@ -15,7 +15,7 @@ from mc.drivers import stores as S
 from mc.lattice import Emb, chunked, nonoverlapping_sets, arbitrary_multisets
 
 BOUNDS = {
-    "quick": {"intersect": "all pairs of non-overlapping lists with <=3 events on lattice 0..5 (zero-length events incl. duplicates), input given sorted and reversed; unit 1 s; n<=2 also at 1 ms", "union": "every multiset of <=4 arbitrary events on 0..5, splits {all-left, 1|rest, half|half, all-right}, sorted and reversed order"},
+    "quick": {"intersect": "all pairs of non-overlapping lists with <=3 events on lattice 0..5 (zero-length events incl. duplicates), input given sorted and reversed; unit 1 s; n<=2 also at 1 ms", "union": "every multiset of <=4 arbitrary events on 0..5 (unit 1 s; <=3 also at 1 ms), splits {all-left, 1|rest, half|half, all-right}, sorted and reversed order"},
     "thorough": {"intersect": "n<=3 on 0..6 plus n=4 vs n<=2 on 0..5; every permutation of each list for n<=3 on 0..4", "union": "multisets of <=5 events on 0..5; units 1 s and 1 ms"},
 }
 RULE = (
@@ -200,6 +200,9 @@ def run(ctx):
         ms = arbitrary_multisets(5, 4)
         for ch in chunked(ms, ctx.workers * 2):
             units.append(("u", (1_000_000, ch)))
+        # millisecond lattice: a gap of exactly one unit is a real gap (a seeded 1 ms 'tolerance' fused them)
+        for ch in chunked(arbitrary_multisets(5, 3), ctx.workers):
+            units.append(("u", (1_000, ch)))
         space = {"intersect_lists_0..5_n<=3": len(sets["N5n3"]), "intersect_lists_0..4_n<=2": len(sets["N4n2"]), "union_multisets": len(ms)}
     else:
         sets["N6n3"] = nonoverlapping_sets(6, 3)
